@@ -1,5 +1,6 @@
 import Evl.Lemmas.DispatchInv
 import Evl.Generated.DispatchFacts
+import Evl.Generated.LockSites
 /-!
 # C03 — Send always returns and leaves no goroutine behind, whatever the cancel point
 
@@ -349,4 +350,11 @@ theorem on_source : Evl.Generated.dispatchFacts =
       sinkFlagFromType := true, childrenSpawnedWithGo := true, rootCalledInline := true,
       errorEndsTraversalFirst := true, ctxArmReturnsAtOnce := true, errorAlwaysReported := true,
       dropAlwaysReported := true } := by decide
+
+/-- Send holds no lock of the Broker while node code runs — neither in the calling goroutine nor, as
+the spawner that waits for them, around the traversal goroutines: a node that calls back into the
+Broker (even a registering call) cannot wedge the Send it runs in. -/
+theorem send_holds_no_lock :
+    ((Evl.Generated.brokerCallbacks.filter (fun c => c.kind == 0)).all (fun c => c.brokerLock == 0)) = true ∧
+    (Evl.Generated.brokerCallbacks.any (fun c => c.kind == 0)) = true ∧ Evl.Generated.lockLeaks = 0 := by decide
 end Evl.C03
